@@ -95,6 +95,22 @@ def parseBit : String → Option Bool
   | "1" => some true
   | _ => none
 
+/-- `1.2.4` / `1.2.4L` (the `L` marks a world whose storage was put into the layout of that release; the
+    model does not look at layouts) -/
+def parseVer (w : String) : Option Ver :=
+  let w := (w.splitOn "L").headD w
+  match nats? (w.splitOn ".") with
+  | some [a, b, c] => some ⟨a, b, c⟩
+  | _ => none
+
+/-- who sends the migration: `f` the factory's owner through `MigratePair` / `MigrateTrio` / `MigrateVaults`,
+    `d` the wasm admin (the factory's address) directly, `s` a stranger through the factory's message -/
+def parseVia : String → Option Bool
+  | "f" => some true
+  | "d" => some true
+  | "s" => some false
+  | _ => none
+
 /-- `init toggles kind=K funded=F amt=A` (the pool is created with a cw20 LP: `token_factory_lp = false`) -/
 def togglesInit (ws : List String) : Option TogglesSt × String :=
   let m := kvs ws
@@ -173,6 +189,18 @@ def togglesOp (t : TogglesSt) (ws : List String) : TogglesSt × String :=
         | .panic => (t, "panic unchanged=1 " ++ showFlags t.st.flags ++ " " ++ named)
       | _, _, _ => (t, "bad-op")
     | _, _, _, _, _, _ => (t, "bad-op")
+  | ["migrate", via, fromV, cur, b] =>
+    -- the `migrate` entry point on a contract whose stored cw2 version was set to `fromV`; `cur` is the
+    -- crate's version (read by the harness from the cw2 item `instantiate` wrote), `base` what the same
+    -- migration did on the never-paused twin
+    let m2 := kvs [cur, b]
+    match parseVia via, parseVer fromV, (m2.lookup "cur").bind parseVer, (m2.lookup "base").bind parseBase with
+    | some byAdmin, some stored, some crate, some body =>
+      match step (fun _ => .ok ()) t.st (.migrate byAdmin stored crate body) with
+      | .ok s => ({ t with st := s }, "ok " ++ showFlags s.flags)
+      | .err => (t, "err unchanged=1 " ++ showFlags t.st.flags)
+      | .panic => (t, "panic unchanged=1 " ++ showFlags t.st.flags)
+    | _, _, _, _ => (t, "bad-op")
   | _ => (t, "bad-op")
 
 end Driver.TogglesD
